@@ -3,8 +3,9 @@ from drivers import docs
 
 
 def _strict_mw(fl, clause):
+    route = clause.split(":", 1)[1]
     for s in fl["obs"]["surfaced"]:
-        if s["route"] == "write.corrections_only.strict" and not s["ok"]:
+        if s["route"] == route and not s["ok"]:
             return s.get("why") == "mw-missing"
     return False
 
@@ -13,4 +14,5 @@ MATCHERS = {"C07-strict-write-hides-multiword": _strict_mw}
 
 
 def run(ctx):
-    return docs.run(ctx, "C07", matchers=MATCHERS)
+    # the tool routes (4 validate profiles, 4 write dry runs) are observed on every 3rd document, the reader receipts on every one
+    return docs.run(ctx, "C07", matchers=MATCHERS, tools_every=3)
